@@ -216,8 +216,9 @@ func (s *state) oracle(h *rt.H, op string) {
 	if s.renamed {
 		suffix = ":rename"
 	} else if s.batched {
-		// rename-free, but several updates were pending at once: only the lost-pending-entry defect
-		// (promotion overwrites pendingWlEpUpdates[best]) can make the oracle fail here
+		// rename-free, but several updates were pending at once.  Proved correct for the fixed code
+		// (iface_state_eq_spec_batches_partial); before the D4 fix a promotion could overwrite a pending
+		// entry here.  Any failure with this suffix is a regression (no KNOWN-FINDING matches it).
 		suffix = ":batch"
 	}
 	pref := map[int]int{}
